@@ -11,6 +11,8 @@ import (
 	"fmt"
 	"strconv"
 	"strings"
+
+	"github.com/inspirer/textmapper/lalr"
 )
 
 type c08Gram struct {
@@ -18,7 +20,13 @@ type c08Gram struct {
 	alts  []c08Alt   // target = index of the alternative
 	first [][]int    // first[i]: terminals alternative i may start with
 	preds [][]string // preds[x]: finite prefix-free language of predicate input x
+	entry []int      // entry[x]: 0 = P_x only used in predicates, 1 = also `%input P_x;` (eoi), 2 = also `%input P_x no-eoi;`
 	label string
+	// nested lookaheads (recursiveLookaheads): predicate x is given by a raw rule text and an oracle
+	rawRule  map[int]string
+	rawHolds map[int]func(g *c08Gram, w string) bool
+	alsoUsed []int
+	options  string
 }
 
 const c08BodyLen = 3 // every alternative derives F_i T T
@@ -32,12 +40,32 @@ func (g *c08Gram) TM(name string, cancellable, optimize bool) string {
 	if cancellable {
 		sb.WriteString("cancellable = true\n")
 	}
+	sb.WriteString(g.options)
 	sb.WriteString("\n::lexer\n\n")
 	for _, t := range g.terms {
 		fmt.Fprintf(&sb, "'%s': /%s/\n", t, t)
 	}
-	sb.WriteString("\n::parser\n\n%input Input;\n\nInput :\n")
 	used := map[int]bool{}
+	for _, a := range g.alts {
+		for _, l := range a.lits {
+			used[l.in] = true
+		}
+	}
+	for _, x := range g.alsoUsed {
+		used[x] = true
+	}
+	sb.WriteString("\n::parser\n\n%input Input")
+	for x := range g.preds {
+		if used[x] && x < len(g.entry) {
+			switch g.entry[x] {
+			case 1:
+				fmt.Fprintf(&sb, ", P%d", x)
+			case 2:
+				fmt.Fprintf(&sb, ", P%d no-eoi", x)
+			}
+		}
+	}
+	sb.WriteString(";\n\nInput :\n")
 	for i, a := range g.alts {
 		if i == 0 {
 			sb.WriteString("    ")
@@ -77,6 +105,10 @@ func (g *c08Gram) TM(name string, cancellable, optimize bool) string {
 		if !used[x] {
 			continue
 		}
+		if raw, ok := g.rawRule[x]; ok {
+			sb.WriteString(raw + "\n")
+			continue
+		}
 		var ss []string
 		for _, w := range lang {
 			q := make([]string, len(w))
@@ -92,6 +124,9 @@ func (g *c08Gram) TM(name string, cancellable, optimize bool) string {
 
 // holdsOn: "the remaining tokens start with a sentence of P_x" (brute force over the finite language).
 func (g *c08Gram) holdsOn(x int, w string) bool {
+	if f, ok := g.rawHolds[x]; ok {
+		return f(g, w)
+	}
 	for _, s := range g.preds[x] {
 		if strings.HasPrefix(w, s) {
 			return true
@@ -155,6 +190,7 @@ func c08RandGram(c *Ctx) *c08Gram {
 	}
 	for x := 0; x < nIn; x++ {
 		g.preds = append(g.preds, c08PrefixFree(c, g.terms))
+		g.entry = append(g.entry, []int{0, 1, 1, 2}[r.Intn(4)])
 	}
 	return g
 }
@@ -185,6 +221,39 @@ func c08Corpus() []*c08Gram {
 			},
 			first: [][]int{{0}, {1}, {0, 1}},
 			preds: [][]string{{"xa"}, {"yb"}},
+		},
+		{
+			label: "corpus:predicate-is-also-eoi-input",
+			terms: []string{"a", "b", "c"},
+			alts: []c08Alt{
+				{[]c08Lit{lit(0, false)}, 0},
+				{[]c08Lit{lit(0, true)}, 1},
+			},
+			first: [][]int{{0, 1, 2}, {0, 1, 2}},
+			preds: [][]string{{"ab"}},
+			entry: []int{1},
+		},
+		{
+			// P1 itself starts with a runtime lookahead decision on P0, so while (?= P1) is evaluated the
+			// decision list runs inside the lookahead parser (template function lookaheadRule)
+			label:   "corpus:nested-lookahead",
+			options: "recursiveLookaheads = true\n",
+			terms:   []string{"a", "b", "c"},
+			alts: []c08Alt{
+				{[]c08Lit{lit(1, false)}, 0},
+				{[]c08Lit{lit(1, true)}, 1},
+			},
+			first:    [][]int{{0, 1, 2}, {0, 1, 2}},
+			preds:    [][]string{{"aa"}, nil},
+			entry:    []int{1, 0},
+			alsoUsed: []int{0},
+			rawRule:  map[int]string{1: "P1 : (?= P0) 'a' 'a' | (?= !P0) 'a' 'b' ;"},
+			rawHolds: map[int]func(g *c08Gram, w string) bool{1: func(g *c08Gram, w string) bool {
+				if g.holdsOn(0, w) {
+					return strings.HasPrefix(w, "aa")
+				}
+				return strings.HasPrefix(w, "ab")
+			}},
 		},
 	}
 }
@@ -254,6 +323,7 @@ func c08EndToEnd(c *Ctx) {
 					c.Count("e2e no parser types")
 					break
 				}
+				c08CheckTables(c, g, gp)
 				b.Add(gp)
 				items = append(items, item{g, gp})
 			}
@@ -363,6 +433,102 @@ func c08EndToEnd(c *Ctx) {
 					c.Violate(fmt.Sprintf("only the conjunction of alternative R%d holds but the generated parser answered %s", sat[0], got), describe())
 				}
 			}
+		}
+	}
+}
+
+// c08CheckTables: table-level check of the compiled grammar.  Every case of every
+// Tables.Lookaheads rule must test a NO-EOI entry point of a predicate nonterminal P_x ("the
+// remaining input starts with a sentence of P_x", not "is a sentence of P_x followed by the end of
+// input"), and, read that way, the decision list must select the right alternative among the
+// alternatives it mentions under every combination of predicate outcomes.
+func c08CheckTables(c *Ctx, g *c08Gram, gp *GenParser) {
+	p := gp.G.Parser
+	t := p.Tables
+	nt := p.NumTerminals
+	describe := strings.ReplaceAll(gp.TM, "\n", "\\n")
+	// lookahead nonterminal symbol -> alternative (through the `-> R<i>` rule type)
+	altOf := map[int]int{}
+	for _, r := range p.Rules {
+		if r.Type < 0 || r.Type >= len(p.Types.RangeTypes) {
+			continue
+		}
+		name := p.Types.RangeTypes[r.Type].Name
+		i, err := strconv.Atoi(strings.TrimPrefix(name, "R"))
+		if err != nil || !strings.HasPrefix(name, "R") || i >= len(g.alts) {
+			continue
+		}
+		for _, s := range r.RHS {
+			if !s.IsStateMarker() {
+				altOf[int(s)] = i
+				break
+			}
+		}
+	}
+	for ri, rule := range t.Lookaheads {
+		var conv lalr.LookaheadRule
+		bad := false
+		for _, cs := range rule.Cases {
+			idx := int(cs.Input)
+			if idx < 0 || idx >= len(p.Inputs) {
+				c.Violate(fmt.Sprintf("Tables.Lookaheads[%d]: case refers to input #%d which does not exist", ri, idx), describe)
+				bad = true
+				break
+			}
+			inp := p.Inputs[idx]
+			name := gp.G.Syms[nt+inp.Nonterm].Name
+			x, err := strconv.Atoi(strings.TrimPrefix(name, "P"))
+			if err != nil || !strings.HasPrefix(name, "P") {
+				c.Violate(fmt.Sprintf("Tables.Lookaheads[%d]: case tests input #%d (%s) which is not a predicate nonterminal", ri, idx, name), describe)
+				bad = true
+				break
+			}
+			if !inp.NoEoi {
+				c.Violate(fmt.Sprintf("Tables.Lookaheads[%d]: the case for predicate %s is bound to input #%d = `%s` followed by END OF INPUT (final state %d); it must use the no-eoi entry point, otherwise (?= %s) is false whenever the input continues after %s", ri, name, idx, name, t.FinalStates[idx], name, name), describe)
+				bad = true
+				break
+			}
+			c.Count("e2e table case bound to a no-eoi input")
+			conv.Cases = append(conv.Cases, lalr.LookaheadCase{Predicate: lalr.Predicate{Input: int32(x), Negated: cs.Negated}, Target: cs.Target})
+		}
+		if bad {
+			continue
+		}
+		conv.DefaultTarget = rule.DefaultTarget
+		var in []c08Alt
+		seen := map[int]bool{}
+		ok := true
+		for _, sym := range append(func() []int {
+			var l []int
+			for _, cs := range rule.Cases {
+				l = append(l, int(cs.Target))
+			}
+			return l
+		}(), int(rule.DefaultTarget)) {
+			i, found := altOf[sym]
+			if !found {
+				ok = false
+				break
+			}
+			if !seen[i] {
+				seen[i] = true
+				in = append(in, c08Alt{g.alts[i].lits, sym})
+			}
+		}
+		if (!ok || len(in) < 2) && g.rawRule != nil {
+			c.Count("e2e table rule of a nested lookahead (cases checked for no-eoi binding only)")
+			continue
+		}
+		if !ok || len(in) < 2 {
+			c.Violate(fmt.Sprintf("Tables.Lookaheads[%d] selects a symbol that is not one of the lookahead nonterminals of the alternatives", ri), describe)
+			continue
+		}
+		before := len(c.Violations)
+		c08Oracle(c, in, conv, "rule "+c08Encode(in))
+		if len(c.Violations) > before {
+			v := &c.Violations[len(c.Violations)-1]
+			v.What = fmt.Sprintf("Tables.Lookaheads[%d] of the compiled grammar: %s", ri, v.What)
+			v.Input = v.Input + " ## " + describe
 		}
 	}
 }
